@@ -61,7 +61,7 @@ def main(run: Run) -> int:
     for j in glue.step_jobs("C05", fns=("step", "refine")):
         alljobs.append(dict(j, module="vf.harness.rc_step", bound="all 21x21 abstract operand pairs of this callback partition (refine: x both resolutions of each UNKNOWN operand)"))
     thorough = run.tier == "thorough"
-    configs = [(1, 6, 0), (2, 3, 1)] if thorough else [(1, 3, 0), (2, 2, 1)]  # (2, 4, 1) + (3, 1, 0) and anything larger did not finish within 40 min on a loaded machine
+    configs = [(1, 6, 0), (2, 4, 1), (3, 1, 0)] if thorough else [(1, 3, 0), (2, 2, 1)]  # (2, 5, 1) + (3, 2, 0) did not finish within 40 min
     total = 0
     for nl, nk, at in configs:
         g = {"NLEAVES": nl, "NKINDS": nk, "ATTACH": at}
